@@ -63,6 +63,7 @@ type world struct {
 	q       *downloader.VerifQueue
 	sched   int
 	base    int // origin of the current session (relative number)
+	memcap  int
 	nd      int // results handed out so far
 }
 
@@ -73,11 +74,15 @@ func txs(b int) []*types.Transaction {
 	}
 	cacheMu.Lock()
 	defer cacheMu.Unlock()
-	if t, ok := txCache[b]; ok {
+	key := b
+	if bigBodies[b] {
+		key += 10000
+	}
+	if t, ok := txCache[key]; ok {
 		return t
 	}
-	t := mkTxs(b)
-	txCache[b] = t
+	t := mkTxs(b, bigBodies[b])
+	txCache[key] = t
 	return t
 }
 
@@ -93,12 +98,19 @@ var (
 // configurations of one run agree on it).
 var bigBodies = map[int]bool{}
 
-func mkTxs(b int) []*types.Transaction {
+func mkTxs(b int, large bool) []*types.Transaction {
 	n := 1 + b%3
 	out := make([]*types.Transaction, 0, n)
 	for i := 0; i < n; i++ {
 		to := common.BigToAddress(big.NewInt(int64(1000 + b)))
-		out = append(out, types.NewTransaction(uint64(i), to, big.NewInt(int64(b*100+i)), 21000, big.NewInt(1), nil))
+		var data []byte
+		if large && i == 0 {
+			data = make([]byte, 4096)
+			for j := range data {
+				data[j] = byte(b + j)
+			}
+		}
+		out = append(out, types.NewTransaction(uint64(i), to, big.NewInt(int64(b*100+i)), 21000, big.NewInt(1), data))
 	}
 	return out
 }
@@ -110,7 +122,13 @@ func newWorld(op *Op, seed int64) *world {
 	if w.maxc == 0 {
 		w.maxc = 2
 	}
-	key := fmt.Sprint(w.origin, w.n, w.fl, w.ff, w.body)
+	cacheMu.Lock()
+	bigBodies = map[int]bool{}
+	for _, b := range op.Big {
+		bigBodies[b] = true
+	}
+	cacheMu.Unlock()
+	key := fmt.Sprint(w.origin, w.n, w.fl, w.ff, w.body, op.Big)
 	cacheMu.Lock()
 	hs, cached := chainCache[key]
 	if cached {
@@ -158,6 +176,27 @@ func newWorld(op *Op, seed int64) *world {
 		w.hashes[h] = k + 1
 	}
 	w.last = w.orig
+	// the memory cap: blockCacheMemory is set to one and a half times the largest block, so that after a large block was
+	// handed out the window holds two items (the configurations use MemCap / BigK with the same quotient) while W small
+	// blocks always fit; blockCacheSizeWeight = 1 makes the size estimate the size of the last block
+	w.memcap = op.MemC
+	if op.MemC > 0 {
+		maxSize := 0.0
+		for id, h := range w.headers {
+			size := float64(h.Size())
+			if b := w.body[id]; b != 0 {
+				for _, tx := range txs(b) {
+					size += float64(tx.Size())
+				}
+			}
+			if size > maxSize {
+				maxSize = size
+			}
+		}
+		downloader.VerifSetMemory(int(1.5*maxSize), 1)
+	} else {
+		downloader.VerifSetMemory(0, 0)
+	}
 	w.q = downloader.NewVerifQueue(w.origin, w.w, w.maxp)
 	return w
 }
@@ -376,7 +415,7 @@ func run(env *drive.Env) error {
 			return fmt.Errorf("behaviour %d does not start with Init", env.T)
 		}
 		w := newWorld(&beh[0], env.Seed)
-		env.Emit(map[string]interface{}{"ev": "Init", "args": map[string]interface{}{"n": w.n, "fl": w.fl, "forkfrom": w.ff, "body": w.body, "w": w.w, "peers": w.peers,
+		env.Emit(map[string]interface{}{"ev": "Init", "args": map[string]interface{}{"memcap": w.memcap, "n": w.n, "fl": w.fl, "forkfrom": w.ff, "body": w.body, "w": w.w, "peers": w.peers,
 			"origin": w.origin, "maxp": w.effMaxP()}, "obs": w.obs()})
 		dead := false
 		for i := 1; i < len(beh); i++ {
